@@ -534,7 +534,8 @@ def stmt(draw, env, depth, nest):
         cond = ("bin", "<", ("var", cnt), ("cast", (False, 32), bound))
         body = _maybe_unbrace(draw, f, body)
         if "unbraced" in f and "hyb_unused_stmt" in f and draw(st.integers(0, 3)) == 0:
-            env.vars[cnt] = (False, 32)     # the body may read the counter
+            env.vars = dict(saved)
+            env.vars[cnt] = (False, 32)     # the body may read the counter (in scope only inside the loop)
             body = _hyb_stmt(draw, env, protect={cnt}, reads=cnt)
             env.vars = saved
             if draw(st.booleans()):
